@@ -475,6 +475,47 @@ class Job:
         return {}
 
 
+class ModuleState:
+    """Module-level mutable state (dict / list / set globals) of the ioos_qc modules, snapshotted when a module is loaded and put
+    back before every execution - symbolic path or real replay - so that each starts from the state a fresh import gives.
+    Without this a cache or a stack left behind by one path (or by another job run earlier in the same worker process) leaks into
+    the next; call histories are exercised on purpose, inside one execution, by the jobs that are about them (C01, C20)."""
+
+    def __init__(self):
+        self.snap = {}
+        self.mods = {}
+
+    def snapshot(self, name, mod):
+        import copy
+        if name in self.snap or mod is None:
+            return
+        keep = {}
+        for k, v in list(vars(mod).items()):
+            if k.startswith("__") or type(v) not in (dict, list, set):
+                continue
+            try:
+                keep[k] = copy.deepcopy(v)
+            except Exception:
+                pass
+        self.snap[name] = keep
+        self.mods[name] = mod
+
+    def reset(self):
+        import copy
+        for name, keep in self.snap.items():
+            d = vars(self.mods[name])
+            for k, v0 in keep.items():
+                cur = d.get(k)
+                fresh = copy.deepcopy(v0)
+                if type(cur) is not type(v0):
+                    d[k] = fresh
+                elif isinstance(cur, list):
+                    cur[:] = fresh
+                else:
+                    cur.clear()
+                    cur.update(fresh)
+
+
 class RealMods:
     """Real ioos_qc modules from /repo's working tree (imported in this process)."""
 
@@ -483,7 +524,15 @@ class RealMods:
         self._imp = importlib.import_module
 
     def __getattr__(self, name):
-        return self._imp(f"ioos_qc.{name}")
+        before = set(k for k in sys.modules if k.startswith("ioos_qc"))
+        m = self._imp(f"ioos_qc.{name}")
+        for k in list(sys.modules):
+            if k.startswith("ioos_qc") and (k not in before or k not in _REAL_STATE.snap):
+                _REAL_STATE.snapshot(k, sys.modules[k])
+        return m
+
+
+_REAL_STATE = ModuleState()
 
 
 class SymMods:
@@ -672,13 +721,19 @@ def run_job(job, seed=0, replay_dir=None, cross_check=0):
         return res
     kit = SymKit()
 
+    sym_state, real_state = ModuleState(), _REAL_STATE
+
+    loader.on_load = sym_state.snapshot
+
     def body():
+        sym_state.reset()
         with warnings.catch_warnings():
             warnings.simplefilter("ignore")
             return job.invoke(symmods, S, kit)
 
     def real_outcome(model, Sc=None):
         Sc = concretize(S, model) if Sc is None else Sc
+        real_state.reset()
         try:
             with warnings.catch_warnings():
                 warnings.simplefilter("ignore")
